@@ -489,6 +489,33 @@ def final_attributes(repo):
     return inside - outside
 
 
+def _stable_for(f):
+    """Callback for normalize.predicates case (3): no name of the expression is re-bound on a path from the binding of v to a use of v."""
+    def stable(assign, v, names):
+        from . import query as Q
+        try:
+            g = f.cfg()
+        except Exception:
+            return False
+        bind = [n for n in g.nodes if n.ast is assign]
+        if len(bind) != 1:
+            return False
+        b = bind[0]
+        uses = [n for n in g.nodes if n is not b and n.ast is not None and v in Q.names_used(n.ast if n.kind not in ('with', 'for') else
+                                                                                        (n.ast.context_expr if n.kind == 'with' else n.ast.iter))]
+        if not uses:
+            return False
+        for x in names:
+            for d in g.nodes:
+                if d is b or d.ast is None or x not in Q.node_defs(d):
+                    continue
+                for u in uses:
+                    if Q.reachable_without(g, u, start=d, avoid_node=lambda n: n is b, weak=True) is not None or d is u:
+                        return False
+        return True
+    return stable
+
+
 def normalise_aliases(repo):
     """`fifo = self._queue … fifo.popleft()` is shown as `self._queue.popleft()` when `_queue` is a final attribute (see final_attributes)."""
     from . import normalize
@@ -503,7 +530,7 @@ def normalise_aliases(repo):
             if new is not None:
                 f = replace_node(m, f, new) or f
                 n += 1
-            new = normalize.apply_predicates(f.node)
+            new = normalize.apply_predicates(f.node, _stable_for(f))
             if new is not None:
                 replace_node(m, f, new)
                 n += 1
